@@ -371,9 +371,13 @@ def _replay_fd(gem, P, A, n, Kc, verbose, rows=None):
 
 
 def _replay_clipped(gem, P, A, n, Kc, verbose):
+    """several looser epsilons (the property is stated for every epsilon; an error proportional to the clipped mass needs a coarse one)"""
+    return any(_replay_clipped_eps(gem, P, A, n, Kc, verbose, eps) for eps in (1e-3, 0.02, 0.1))
+
+
+def _replay_clipped_eps(gem, P, A, n, Kc, verbose, eps):
     """some entries of P are outside [eps, 1-eps]; for float64 to show the effect the model point is re-scaled so that
-    clipped entries sit at 0 / 1 exactly and a looser epsilon is used (the property is stated for every epsilon)."""
-    eps = 1e-3
+    clipped entries sit at 0 / 1 exactly and a looser epsilon is used."""
     lo0, hi0 = gem.epsilon, 1 - gem.epsilon
     low = P <= lo0
     high = P >= hi0
@@ -422,15 +426,16 @@ def jobs(tier):
     out = []
     q = tier == "quick"
     for lab in cg.CLASSES:
-        for (n, Kc) in shapes:
+        for (n, Kc) in (shapes + ([(3, 3)] if q and lab.split("-")[0] in ("KL", "MI", "TV", "CHI2", "W") else [])):
+            # (3,3): the smallest square shape beyond (2,2) -- an axis mix-up that coincides when n == K shows there (seconds for these classes)
             if q and (lab, (n, Kc)) in SLOW:
                 continue
             out.append({"name": f"{lab}/n{n}K{Kc}", "target": "checks.c02:job",
                         "kwargs": dict(label=lab, n=n, Kc=Kc, timeout_q=(20.0 if q else 300.0)),
                         "timeout": (200 if q else 2400)})
-        for (n, Kc) in ([(2, 2)] if q else [(2, 2), (2, 3)]):
-            if q and lab in SLOW_CLIP:
-                continue
+        for (n, Kc) in [(2, 2), (2, 3)]:
+            if q and (lab in SLOW_CLIP or (Kc == 3 and lab == "MMD-ova")):
+                continue      # K = 3 (a row can be clipped to (eps, eps, 1-eps): clipped mass no longer sums to one) costs ~10 s for the others
             out.append({"name": f"{lab}/clip/n{n}K{Kc}", "target": "checks.c02:job_clip",
                         "kwargs": dict(label=lab, n=n, Kc=Kc, timeout_q=(15.0 if q else 120.0)),
                         "timeout": (200 if q else 2400)})
